@@ -201,6 +201,7 @@ func C08(run *hx.Run) {
 	wg.Wait()
 	c08TransientFault(run, dir)
 	c08CommitAtLockRequest(run, dir)
+	c08BornEmpty(run, dir)
 	nConc := 6
 	if run.Thorough() {
 		nConc = 60
@@ -923,6 +924,133 @@ func c08CommitAtLockRequest(run *hx.Run, dir string) {
 			}
 			h.low.Close()
 			run.See("commit_at_lock_request", fmt.Sprintf("ps=%d rows=%d", ps, nrows))
+		}
+	}
+}
+
+// c08BornEmpty: the handle is opened on (and has read) a database that has no tables yet - SQLite leaves the
+// schema format field at 0 until the first CREATE - and another connection then creates the first tables, with
+// DESC keys and indexes (which makes SQLite write format 4). Full scans do not depend on what the handle believes
+// about directions; keyed lookups do, so each state is followed by equality lookups for every stored key,
+// compared with SQLite's answer.
+func c08BornEmpty(run *hx.Run, dir string) {
+	o := mustOracle(run)
+	if o == nil {
+		return
+	}
+	defer o.Close()
+	sizes := []int{1024, 4096}
+	if run.Thorough() {
+		sizes = []int{512, 1024, 2048, 4096, 8192, 65536}
+	}
+	for ci, ps := range sizes {
+		for variant := 0; variant < 2; variant++ {
+			path := filepath.Join(dir, fmt.Sprintf("born%d_%d.sqlite", ci, variant))
+			os.Remove(path)
+			if err := o.Exec(path, fmt.Sprintf("PRAGMA page_size=%d", ps), "PRAGMA user_version=1"); err != nil {
+				run.Inconclusive("born-empty db: " + err.Error())
+				return
+			}
+			db, err := sqlittle.Open(path)
+			if err != nil {
+				run.Violation("C08/born-empty/open", "Open of a database without tables: "+err.Error(), nil)
+				continue
+			}
+			low, err := sdb.OpenFile(path)
+			if err != nil {
+				db.Close()
+				run.Violation("C08/born-empty/open-low", "OpenFile of a database without tables: "+err.Error(), nil)
+				continue
+			}
+			if variant == 1 {
+				// this handle has read the empty state; variant 0 reads for the first time after the CREATEs
+				if key, what, _ := compareWholeDB(o, path, db, low, nil); key != "" && key != "INCONCLUSIVE" {
+					run.Violation("C08/born-empty/"+key, "empty state: "+what, nil)
+				}
+			}
+			states := [][]string{
+				{"CREATE TABLE t(id INTEGER PRIMARY KEY, v, s TEXT)",
+					"CREATE INDEX ix_t_v ON t(v DESC)",
+					"CREATE INDEX ix_t_sv ON t(s COLLATE NOCASE DESC, v)",
+					"WITH RECURSIVE c(i) AS (SELECT 1 UNION ALL SELECT i+1 FROM c WHERE i < 600) INSERT INTO t SELECT i, (i*7919) % 97, 'k' || (i % 41) FROM c",
+					"CREATE TABLE w(k INTEGER, n TEXT, p, PRIMARY KEY(k DESC, n)) WITHOUT ROWID",
+					"WITH RECURSIVE c(i) AS (SELECT 1 UNION ALL SELECT i+1 FROM c WHERE i < 400) INSERT INTO w SELECT i % 53, 'n' || i, i FROM c"},
+				{"DROP INDEX ix_t_v", "CREATE INDEX ix_t_v ON t(v)", "DELETE FROM w WHERE k % 2 = 0"},
+				{"DROP INDEX ix_t_v", "CREATE INDEX ix_t_v ON t(v DESC, s DESC)", "VACUUM"},
+			}
+			for si, stmts := range states {
+				if err := o.Exec(path, stmts...); err != nil {
+					run.Inconclusive("born-empty write: " + err.Error())
+					break
+				}
+				ctx := fmt.Sprintf("page size %d, variant %d, state %d", ps, variant, si+1)
+				if key, what, n := compareWholeDB(o, path, db, low, nil); key != "" {
+					if key == "INCONCLUSIVE" {
+						run.Inconclusive(what)
+					} else {
+						run.Violation("C08/born-empty/"+key, ctx+": "+what, hx.M{"statements": stmts})
+					}
+					break
+				} else {
+					run.Eval(n)
+				}
+				bad := false
+				for v := 0; v < 97 && !bad; v++ {
+					want, err := o.Query(path, "SELECT id FROM t WHERE v = ?", int64(v))
+					if err != nil {
+						run.Inconclusive("born-empty reference: " + err.Error())
+						bad = true
+						break
+					}
+					got := 0
+					var gerr error
+					pn, msg := safely(func() {
+						gerr = db.IndexedSelectEq("t", "ix_t_v", sqlittle.Key{int64(v)}, func(sqlittle.Row) { got++ }, "id")
+					})
+					if pn {
+						run.Violation("C08/born-empty/panic", ctx+": IndexedSelectEq panicked: "+msg, nil)
+						bad = true
+					} else if gerr != nil {
+						run.Violation("C08/born-empty/read-error/IndexedSelectEq", fmt.Sprintf("%s: IndexedSelectEq(t, ix_t_v, %d): %v", ctx, v, gerr), nil)
+						bad = true
+					} else if got != len(want) {
+						run.Violation("C08/born-empty/stale/IndexedSelectEq", fmt.Sprintf("%s: IndexedSelectEq(t, ix_t_v, %d) gives %d rows, SQLite has %d (the handle was opened before the first table existed)", ctx, v, got, len(want)), hx.M{"statements": stmts})
+						bad = true
+					}
+					run.Eval(1)
+				}
+				for k := 0; k < 53 && !bad; k++ {
+					want, err := o.Query(path, "SELECT n FROM w WHERE k = ?", int64(k))
+					if err != nil {
+						run.Inconclusive("born-empty reference: " + err.Error())
+						bad = true
+						break
+					}
+					got := 0
+					var gerr error
+					pn, msg := safely(func() {
+						gerr = db.PKSelect("w", sqlittle.Key{int64(k)}, func(sqlittle.Row) { got++ }, "n")
+					})
+					if pn {
+						run.Violation("C08/born-empty/panic", ctx+": PKSelect panicked: "+msg, nil)
+						bad = true
+					} else if gerr != nil {
+						run.Violation("C08/born-empty/read-error/PKSelect", fmt.Sprintf("%s: PKSelect(w, %d): %v", ctx, k, gerr), nil)
+						bad = true
+					} else if got != len(want) {
+						run.Violation("C08/born-empty/stale/PKSelect", fmt.Sprintf("%s: PKSelect(w, %d) gives %d rows, SQLite has %d (the handle was opened before the first table existed)", ctx, k, got, len(want)), hx.M{"statements": stmts})
+						bad = true
+					}
+					run.Eval(1)
+				}
+				if bad {
+					break
+				}
+				run.Distinct(fmt.Sprintf("born-empty/%d/%d/%d", ps, variant, si))
+				run.See("born_empty_state", fmt.Sprintf("state %d", si+1))
+			}
+			low.Close()
+			db.Close()
 		}
 	}
 }
